@@ -305,7 +305,7 @@ def print_judge(case):
     r = run_print(case)
     if r[0] == "exc":
         import re as _re
-        if isinstance(r[1], _re.error):
+        if isinstance(r[1], _re.error) or isinstance(getattr(r[1], "__cause__", None), _re.error):
             return None
         return None if fl[3] else "other: process_yaml_file raised %s" % type(r[1]).__name__
     st, data = load(text)
@@ -657,8 +657,10 @@ def discrepancies(case):
         return []
     if r[0] == "exc":
         import re as _re
-        if isinstance(r[1], _re.error):
-            return []       # an invalid regular expression is C15's subject, not C07's
+        if isinstance(r[1], _re.error) or isinstance(getattr(r[1], "__cause__", None), _re.error):
+            # an invalid regular expression is no search expression: C15's subject, not C07's (since the
+            # library wraps re.error into YAMLPathException the cause is looked at)
+            return []
         return [("other", "the search raised %s: %s" % (type(r[1]).__name__, r[1]))]
     if o[2]:
         return []           # --refnames is outside the property text; tie only
